@@ -171,9 +171,13 @@ pub fn run_plan(plan: Plan, tier: Tier) -> Outcome
     if !order.is_empty() { let r = (seed as usize) % order.len(); let _ = r; }
     order.sort_by_key(|i| (plan.items[*i].bound.clone(), plan.items[*i].series.clone()));
 
+    // developer aid: restrict a run to the series whose name contains VERIF_ONLY_SERIES
+    let only = std::env::var("VERIF_ONLY_SERIES").ok();
     for idx in order
     {
         let it = &plan.items[idx];
+        if let Some(o) = &only { if !it.series.contains(o.as_str()) { continue; } }
+        if let Ok(sk) = std::env::var("VERIF_SKIP_SERIES") { if it.series.contains(sk.as_str()) { continue; } }
         if capped_series.contains_key(&it.series) { continue; }
         if Instant::now() > deadline
         {
